@@ -219,6 +219,13 @@ class XExprEvaluator(ModelVisitor):
     def visit_expr_literal(self, e : ExprLiteralModel):
         self.is_x = False
         self.val = e.val()
+        
+    def visit_expr_partselect(self, e):
+        # The bounds are literals. Only the base decides whether 
+        # the value is known
+        e.lhs.accept(self)
+        if not self.is_x:
+            self.val = e.val()
     
     def visit_scalar_field(self, f:FieldScalarModel):
         if f.is_used_rand:
